@@ -3,6 +3,7 @@ import Sozu.Headers.Model
 import Sozu.Headers.Editor
 import Sozu.Headers.Strict
 import Sozu.Headers.Hsts
+import Sozu.Headers.Reconcile
 open Sozu Sozu.Proto Sozu.Headers
 
 /-! Line protocol of the Headers area (C03 / C13). One line in, one line out.
@@ -112,6 +113,15 @@ structure St where
   req : Option (Req × Limits) := none
   hsts : HState := {}
 
+/-- a stream event of the `recon` verb: `d<len>:<endStream 0|1>` or `t` (trailer HEADERS) -/
+def parseStreamEv (s : String) : Option StreamEv :=
+  if s = "t" then some .trailers
+  else if s.startsWith "d" then
+    match (String.ofList (s.toList.drop 1)).splitOn ":" with
+    | [n, e] => do let n ← n.toNat?; let e ← parseBool e; pure (.data n e)
+    | _ => none
+  else none
+
 def stepLine (st : St) (line : String) : St × List String :=
   match words line with
   | ["new"] => ({}, ["new"])
@@ -128,6 +138,13 @@ def stepLine (st : St) (line : String) : St × List String :=
       | some (.error r) => ({ st with req := none }, [s!"reject {clsStr r.cls} {repr r}"])
       | some (.ok r) => ({ st with req := some (r, lim) }, [showReq sch r])
     | _, _, _, _, _ => (st, ["bad-op"])
+  -- recon <declared length|~> <exempt> <events>: Content-Length vs DATA reconciliation of one request stream
+  | ["recon", d, ex, evs] =>
+    match (if d = "~" then some none else d.toNat?.map some), parseBool ex, parseList parseStreamEv evs with
+    | some declared, some ex, some evs =>
+      let r := rrun declared ex evs
+      (st, [s!"forwarded={r.forwarded} received={r.received} done={if r.done then 1 else 0} reset={if r.reset then 1 else 0}"])
+    | _, _, _ => (st, ["bad-op"])
   -- trailer <maxList> <maxFields> <endStream> <headers>
   | ["trailer", ml, mf, es, hs] =>
     match ml.toNat?, mf.toNat?, parseBool es, parseList parsePair hs with
